@@ -148,11 +148,12 @@ def expected_from_dump(dump):
 
 
 def drop_filled_ids(nb, dump):
-    """nbformat.write fills in random ids for 4.5 cells that lack one (a merged notebook with that
-    defect is C04's finding 'mixed-minor-cell-ids'); such ids are random on both sides of the comparison"""
+    """nbformat.write fills in random ids for 4.5 cells that lack one and replaces duplicated ids by fresh random
+    ones (a merged notebook with those defects is C04's business); such ids are random on both sides of the comparison"""
     nb = copy.deepcopy(nb)
+    ids = [dc.get("id") for dc in dump["merged"].get("cells", [])]
     for c, dc in zip(nb.get("cells", []), dump["merged"].get("cells", [])):
-        if "id" not in dc:
+        if "id" not in dc or ids.count(dc["id"]) > 1:
             c.pop("id", None)
     return nb
 
